@@ -130,6 +130,12 @@ impl Error {
                     }
                 }
             }
+            Error::InfiniteType { ty } => {
+                diagnostic = diagnostic
+                    .with_message("This would need a type that contains itself (an infinite type)");
+                let reason = ty.reasons().first();
+                handle_reason(ty, reason, &mut labels, &mut notes);
+            }
             Error::TypeConflict {
                 ty1,
                 ty2,
